@@ -105,6 +105,13 @@ def check_g2(pid, tier):
     o_, c_ = s12config.obligations(pid)
     obs += o_
     crashes += c_
+    # S14: the literal spliced into the omit_default guard compares like the default itself, for every kind of default
+    try:
+        obs += s12config.default_literal_obligations(pid)
+    except Exception as e:  # noqa
+        import traceback
+
+        crashes.append(f"S14: {type(e).__name__}: {e}\n{traceback.format_exc()[-500:]}")
     return runner.finish(
         pid, tier, obs, t0,
         technique="VCs from the harvested generated to_dict (pysym, all instances and keyword flags symbolic) against PROJECT(options, plain), z3; exhaustive option lattice",
@@ -241,10 +248,13 @@ def check_c18(pid, tier):
     payloads = []
     for dn in g4.DIALECTS:
         sel = types if (dn == "default" or tier == "thorough") else [t for t in types if any(k in t for k in ("List", "list", "Dict", "dict", "Sequence", "Mapping"))]
+        if dn == "nt_as_dict":
+            sel = [t for t in types if "NT" in t]
         payloads += [(pid, t, dn, "both") for t in sel]
     res1 = runner.run_pool(g4.g4_task, payloads, chunks=2)
     # (dataclass elements under a codec default dialect are compiled for that dialect: C13's subject)
-    cod = [(pid, t, dn) for dn in g4.DIALECTS for t in (types[:24] if tier == "quick" else types) if dn == "default" or "D1" not in t]
+    cod = [(pid, t, dn) for dn in g4.DIALECTS for t in (types[:24] if tier == "quick" else types) if (dn == "default" or "D1" not in t) and dn != "nt_as_dict"]
+    cod += [(pid, t, "nt_as_dict") for t in types if "NT" in t]
     res2 = runner.run_pool(g4.codec_task, cod, chunks=2)
     # format mixins carry no_copy_collections = (list, dict); with dialect support the per-format caches
     # keep a unit compiled under one format's dialect from serving another format
@@ -381,6 +391,10 @@ def check_g7(pid, tier):
 
         kpts = [p for p in g1.lattice_c05("quick") if any(f.role in ("cls_kw_only", "kw_only", "after_KW_ONLY") for f in p.fields)]
         res = res + runner.run_pool(g1.g1_task, [(pid, p) for p in kpts], chunks=4)
+        # one variants registry per variant method (a class registered through one format's entry point owns that format's unit only)
+        from . import c12
+
+        res = res + runner.run_pool(c12.format_registry_task, [(pid, f) for f in c12.FMT_MIXINS], chunks=1)
     obs, crashes, trusted = _collect(res)
     obs += extra
     return runner.finish(
